@@ -1,7 +1,21 @@
 """C01/C12 driver: import every module of the emitted package(s); resolve every __all__ name."""
+import os
 import sys
+import traceback
 
 import drvlib
+
+
+def origin_of(err, root):
+    """file (relative to root) in which the failure originates: SyntaxError.filename, else innermost traceback frame under root"""
+    if isinstance(err, SyntaxError) and err.filename:
+        fn = err.filename
+        return os.path.relpath(fn, root) if fn.startswith(root) else fn
+    last = None
+    for fs in traceback.extract_tb(err.__traceback__):
+        if fs.filename.startswith(root):
+            last = fs.filename
+    return os.path.relpath(last, root) if last else None
 
 
 def run(args):
@@ -13,13 +27,14 @@ def run(args):
             mod, err = drvlib.try_import(name)
             modules.append(name)
             if err is not None:
-                failures.append({"module": name, "kind": "import", "error": drvlib.norm_exc(err), "raw": f"{type(err).__name__}: {err}"[:500]})
+                failures.append({"module": name, "kind": "import", "error": drvlib.norm_exc(err), "origin": origin_of(err, root),
+                                 "raw": f"{type(err).__name__}: {err}"[:500]})
                 continue
             names = getattr(mod, "__all__", None)
             if names is not None:
                 for n in names:
                     if not isinstance(n, str) or not hasattr(mod, n):
-                        failures.append({"module": name, "kind": "all", "error": f"__all__ name does not resolve",
+                        failures.append({"module": name, "kind": "all", "error": "__all__ name does not resolve", "origin": None,
                                          "raw": f"{name}.__all__ lists {n!r} which is not an attribute"})
     try:
         import pyopenapi_gen  # noqa: F401
@@ -27,5 +42,4 @@ def run(args):
         gen = True
     except ImportError:
         gen = False
-    foreign = sorted({m.split(".")[0] for m in sys.modules} - set(args.get("baseline_modules", [])))
     return {"modules": modules, "failures": failures, "generator_importable": gen}
